@@ -41,7 +41,16 @@ impl AuthDatabase for Db {
         self.g().get_user_by_uid(uid)
     }
     fn get_user_by_token(&self, token: impl AsRef<str>) -> Option<User> {
-        self.g().get_user_by_token(token)
+        // the trait's second token lookup is not called by the provider: cross-check it here against the first one
+        let g = self.g();
+        let u = g.get_user_by_token(token.as_ref());
+        let s = g.get_session_by_token(token.as_ref());
+        let us = u.as_ref().and_then(|u| u.session.clone());
+        assert!(
+            s.as_ref().map(|x| (x.token.clone(), x.expiry)) == us.as_ref().map(|x| (x.token.clone(), x.expiry)),
+            "get_session_by_token disagrees with get_user_by_token"
+        );
+        u
     }
     fn get_session_by_token(&self, token: impl AsRef<str>) -> Option<Session> {
         self.g().get_session_by_token(token)
